@@ -63,7 +63,7 @@ def replay(req):
     for c in req['calls']:
         try:
             do_call(B, it, c)
-        except (AssertionError, ValueError, IndexError, KeyError, TypeError, NotImplementedError, AttributeError):
+        except (Exception,):
             break
     return {'events': it._events, 'files': [list(s.getvalue()) for s in sinks]}
 
